@@ -226,5 +226,14 @@ func (t *T) Held(m any) bool {
 	return true
 }
 
-// FireTimers lets pending timers fire (engine); natively waits a little.
-func (t *T) FireTimers() int { time.Sleep(50 * time.Millisecond); return 0 }
+// FireTimers lets pending timers fire (engine); natively waits a little — or,
+// when a replay is repeated in real time (VERIF_REPLAY_SLOW), as long as the
+// longest retry interval of the code under test (10 s) takes.
+func (t *T) FireTimers() int {
+	if os.Getenv("VERIF_REPLAY_SLOW") != "" {
+		time.Sleep(11 * time.Second)
+	} else {
+		time.Sleep(50 * time.Millisecond)
+	}
+	return 0
+}
